@@ -198,6 +198,8 @@ def run(tier, seed, cache=None, corrupt=None, configs=None):
             PROP, what, {'component': 'tracker', 'kind': b['kind'], 'ops': ops_text(code)},
             {'case_code': code, 'ops': ops_text(code), 'got': b.get('got'), 'specified': b.get('want'),
              'note': 'even-numbered guards carry .map(max - cur) like the VLA guard', 'total_mismatching_cases': len(bad_all)}))
+    out['traces_validated_against_impl'] = out['cases']
+    out['exhaustive'] = 'every operation sequence of each configuration (length bound x sizes), see configs'
     out['wall_s'] = round(time.time() - t0, 1)
     return out
 
